@@ -138,7 +138,7 @@ fn run_case(case: &Value) -> Value {
             .iter()
             .filter(|n| pats.iter().any(|p| p.is_match(n)))
             .collect();
-        // identifier tags only (member / namespaced tags are never custom elements): what "uses a pattern" means for C14
+        // identifier tags and the qualified names of namespaced tags (member tags are never custom elements): what "uses a pattern" means for C14
         let mut ident_names: Vec<String> = vec![];
         collect_ident_tag_names(&serde_json::to_value(&input).unwrap(), &mut ident_names);
         ident_names.sort();
@@ -281,6 +281,15 @@ fn collect_ident_tag_names(v: &Value, out: &mut Vec<String>) {
                             out.push(s.to_string())
                         }
                     }
+                    // the tag of `<ns:name>` is `ns:name`: a pattern that matches it makes it a custom element
+                    if name.get("type").and_then(|t| t.as_str()) == Some("JSXNamespacedName") {
+                        if let (Some(a), Some(b)) = (
+                            name["namespace"].get("value").and_then(|s| s.as_str()),
+                            name["name"].get("value").and_then(|s| s.as_str()),
+                        ) {
+                            out.push(format!("{}:{}", a, b))
+                        }
+                    }
                 }
             }
             for (_, c) in map {
@@ -310,8 +319,12 @@ fn collect_tag_names(v: &Value, out: &mut Vec<String>) {
                             }
                         }
                         Some("JSXNamespacedName") => {
+                            // the local name (known-tag table) and the qualified name (patterns)
                             if let Some(s) = name["name"].get("value").and_then(|s| s.as_str()) {
-                                out.push(s.to_string())
+                                out.push(s.to_string());
+                                if let Some(a) = name["namespace"].get("value").and_then(|s| s.as_str()) {
+                                    out.push(format!("{}:{}", a, s))
+                                }
                             }
                         }
                         _ => {}
